@@ -65,6 +65,7 @@ type poolType struct {
 	consOpt     func(any) nject.Provider
 	allowShadow func(any) nject.Provider
 	prod        int // for interfaces: index in pool of the concrete type scripts produce
+	unhashable  bool
 }
 
 func conc[T any](name string, mk func(p, s int) T) *poolType {
@@ -76,6 +77,13 @@ func conc[T any](name string, mk func(p, s int) T) *poolType {
 		consOpt:     func(f any) nject.Provider { return nject.ConsumptionOptional[T](f) },
 		allowShadow: func(f any) nject.Provider { return nject.AllowReturnShadowing[T](f) },
 	}
+}
+
+// concU: like conc, for types that are not comparable
+func concU[T any](name string, mk func(p, s int) T) *poolType {
+	pt := conc(name, mk)
+	pt.unhashable = true
+	return pt
 }
 
 func ifc[T any](name string, prod int) *poolType {
@@ -108,6 +116,9 @@ const (
 	pTerminal
 	pUnused
 	pDebug
+	pSlice
+	pMap
+	pAnonFn
 	poolSize
 )
 
@@ -130,6 +141,10 @@ var pool = []*poolType{
 	ifc[nject.TerminalError]("TerminalError", -1),
 	conc("Unused", func(p, s int) nject.Unused { return nject.Unused{} }),
 	{name: "*Debugging", t: reflect.TypeOf((*nject.Debugging)(nil))},
+	// types that cannot be map keys / are anonymous funcs (malformed and memoize streams)
+	concU("[]int", func(p, s int) []int { return []int{p, s} }),
+	concU("map[string]int", func(p, s int) map[string]int { return map[string]int{"p": p, "s": s} }),
+	concU("func()", func(p, s int) func() { return func() {} }),
 }
 
 var (
@@ -175,7 +190,14 @@ func typeTable() string {
 		if pt.iface && pt.prod >= 0 {
 			prod = pool[pt.prod].tc
 		}
-		s += fmt.Sprintf(" %d %d %d %d 1 1 0 %d", pt.tc, iface, pkgID(pt.t), pt.t.NumMethod(), len(impl))
+		mappable, mapkey, anon := 1, 1, 0
+		if pt.unhashable {
+			mappable, mapkey = 0, 0
+		}
+		if pt.t.Kind() == reflect.Func && pt.t.Name() == "" {
+			anon = 1
+		}
+		s += fmt.Sprintf(" %d %d %d %d %d %d %d %d", pt.tc, iface, pkgID(pt.t), pt.t.NumMethod(), mappable, mapkey, anon, len(impl))
 		for _, i := range impl {
 			s += fmt.Sprintf(" %d", i)
 		}
@@ -196,6 +218,18 @@ func showVal(v reflect.Value) string {
 		v = v.Elem()
 	}
 	switch x := v.Interface().(type) {
+	case []int:
+		if len(x) == 2 {
+			return fmt.Sprintf("%d.%d.%d", nject.VerifTypeCode(v.Type()), x[0], x[1])
+		}
+		return fmt.Sprintf("%d.0.0", nject.VerifTypeCode(v.Type()))
+	case map[string]int:
+		return fmt.Sprintf("%d.%d.%d", nject.VerifTypeCode(v.Type()), x["p"], x["s"])
+	case func():
+		if x == nil {
+			return fmt.Sprintf("%d.0.0", nject.VerifTypeCode(v.Type()))
+		}
+		return "f"
 	case nject.Unused:
 		return "u"
 	case *nject.Debugging:
